@@ -191,6 +191,16 @@ func c08Gomax(o *hx.Out, r *hx.Rng, pl *pxPools) error {
 		}
 		st = append(st, res)
 	}
+	// hyphens that are not a GOMAXPROCS suffix (c08gaps3.go)
+	nh := r.Range(3, 8)
+	for i := 0; i < nh; i++ {
+		st = append(st, pxResult{Name: c08GmHyphen[r.Intn(len(c08GmHyphen))], Units: []string{"sec/op"}})
+	}
+	for j := len(st) - 1; j > 0; j-- {
+		k := r.Intn(j + 1)
+		st[j], st[k] = st[k], st[j]
+	}
+	o.Count(fmt.Sprintf("gomaxprocs family: names with a hyphen that is no GOMAXPROCS suffix=%s", pxBucket(nh)))
 	// the two spellings of one configuration always meet
 	st = append(st, pxResult{Name: "X-8", Units: []string{"sec/op"}}, pxResult{Name: "X/gomaxprocs=8", Units: []string{"sec/op"}},
 		pxResult{Name: "X/size=1-8", Units: []string{"sec/op"}}, pxResult{Name: "X/size=1/gomaxprocs=8", Units: []string{"sec/op"}})
